@@ -85,10 +85,10 @@ let pr_reg i = function
   | Some (k, s) ->
       pr " ; r"; pr (string_of_int i); pr "=";
       pr (match k with KPQ -> "pq" | KDPQ -> "dpq");
-      pr " m="; pr_list "," pr_elem s.map;
+      pr " m="; pr_list "," pr_elem s.smap;
       pr " h="; pr_list "," pr_nat s.heap;
       pr " q="; pr_list "," pr_nat s.qp;
-      pr " s="; pr_nat s.size0
+      pr " s="; pr_nat s.ssize
 let pr_line out ticks m =
   pr_out out; pr " ; t="; pr (string_of_int ticks);
   List.iteri pr_reg m; pr "\n"
